@@ -234,112 +234,81 @@ def gen_cases(ctx):
             spec = spec_of(other, rng)
             add('foreign-id', 'idparse %s %s' % (ty, hexs(ref_format_spec(spec, [rand_other(g) for g in fields(spec)]))))
         add('empty', 'idparse %s' % ty)
+    # ID objects built the long way round: default construction, set(), unset()
+    for ty in REF:
+        fs = fields(REF[ty])
+        add('object-default', 'idself %s default' % ty)
+        for _ in range(20):
+            vals = ' '.join(str(rand_other(g)) for g in fs)
+            add('object-set', 'idself %s set %s' % (ty, vals))
+            add('object-unset', 'idself %s unset %s' % (ty, vals))
     return cases, hist
+
+
+def self_check(case, line):
+    """idself cases: the formatted text must be the text of the values get<>() reports, and
+    parse(format(id)) must compare equal to id."""
+    t = case.split()
+    r = line.split()
+    nf = len(fields(REF[t[1]]))
+    if len(r) != nf + 3 or r[0] != 'ok':
+        return 'ok <text> <values> eq'
+    vals = [int(x) for x in r[2:2 + nf]]
+    want = ref_format(t[1], vals)
+    if t[2] == 'set' and vals != [int(x) for x in t[3:]]:
+        return 'get<>() to return the values that were set: %s' % ' '.join(t[3:])
+    if want is None or not agrees('idformat x', 'ok ' + r[1], 'ok ' + hexs(want)) or r[-1] != 'eq':
+        return 'ok %s %s eq' % (hexs(want) if want else '<text>', ' '.join(map(str, vals)))
+    return None
 
 
 def describe(case):
     t = case.split()
+    if t[0] == 'idself':
+        return '%s built by %s(%s): format, values, parse(format(id)) == id' % (t[1], t[2], ', '.join(t[3:]))
     if t[0] == 'idparse':
         return 'parse%s(%r)' % (t[1], unhex(t[2]) if len(t) > 2 else '')
     return 'format%s(%s)' % (t[1], ', '.join(t[2:]))
 
 
+class Spec:
+    gen_key = 'IdTraitsGen.v'
+    what = 'extracted drv_id_parse/drv_id_format vs libadm parseXxxId/formatId'
+    rule = ('cases: every value of every 16-bit and 8-bit field of the eleven ID types (format and parse of an '
+            'independently formatted mixed-case string), sampled 32-bit values at power-of-two boundaries, values too '
+            'wide for their field, all single edits and sampled double edits of valid IDs, foreign IDs, the empty '
+            'string; non-trivial = distinct cases on which libadm returns a value rather than an exception')
+    assumptions = ['C++ unsigned is 32 bits: field values above 2^32-1 are not representable and not generated',
+                   'the reference ID grammar in tools/props/c10.py transcribes the eleven BS.2076 ID formats']
+    gen_cases = staticmethod(gen_cases)
+    expected = staticmethod(expected_line)
+    agrees = staticmethod(agrees)
+    describe = staticmethod(describe)
+    self_check = staticmethod(self_check)
+
+    @staticmethod
+    def impl_only(case):
+        return case.startswith('idself')
+
+    @staticmethod
+    def classify(case):
+        t = case.split()
+        return t[0] + ' ' + t[1]
+
+    @staticmethod
+    def second_pass(case, impl_line):
+        # what libadm formats, libadm parses back to the same values
+        if case.startswith('idformat') and impl_line.startswith('ok '):
+            t = case.split()
+            return ('idparse %s %s' % (t[1], impl_line[3:]), 'ok ' + ' '.join(t[2:]))
+        return None
+
+
 def run(ctx):
-    with vlib.Lock():
-        admdrv = vlib.build_admdrv('plain')
-        tr_ok, tr_out, tr_stats = vlib.translate()
-        proof = vlib.coq_check_props('C10')
-        try:
-            modeldrv = vlib.build_modeldrv()
-        except vlib.CheckError as e:
-            modeldrv = None
-            ctx.notes.append('model does not build: %s' % str(e)[-500:])
-    cases, hist = gen_cases(ctx)
-    # corpus first
-    corpus = load_corpus()
-    cases = corpus + cases
-    impl = vlib.run_sharded(admdrv, 'codec', cases)
-    model = vlib.run_sharded(modeldrv, 'codec', cases) if modeldrv else [None] * len(cases)
-    disagreements = []
-    oracle_fail = []
-    nontrivial = set()
-    for c, i, m in zip(cases, impl, model):
-        e = expected_line(c)
-        if not agrees(c, i, e):
-            oracle_fail.append((c, i, e))
-        if m is not None and i != m:
-            disagreements.append((c, i, m))
-        if i.startswith('ok'):
-            nontrivial.add(c)
-    # second pass: what libadm formats, libadm parses back to the same values (property oracle proper)
-    second = []
-    for c, i in zip(cases, impl):
-        if c.startswith('idformat') and i.startswith('ok '):
-            t = c.split()
-            second.append(('idparse %s %s' % (t[1], i[3:]), 'ok ' + ' '.join(t[2:])))
-    back = vlib.run_sharded(admdrv, 'codec', [s[0] for s in second])
-    for (c, want), got in zip(second, back):
-        if got != want:
-            oracle_fail.append((c, got, want))
-    found = False
-    for c, got, want in oracle_fail[:5]:
-        found = True
-        ctx.violation('%s gives %r, the ID grammar requires %r' % (describe(c), got, want),
-                      dict(kind='oracle', cases=[c], libadm=got, required=want), tag=None)
-    if disagreements and not found:
-        c, i, m = disagreements[0]
-        ctx.violation('correspondence: model and libadm differ on %s (libadm %r, model %r) but the ID grammar '
-                      'oracle finds no failing input' % (describe(c), i, m),
-                      dict(kind='correspondence', cases=[d[0] for d in disagreements[:20]],
-                           correspondence='extracted drv_id_parse/drv_id_format vs libadm parseXxxId/formatId',
-                           libadm=[d[1] for d in disagreements[:20]], model=[d[2] for d in disagreements[:20]]),
-                      tag=None, found_input=False)
-    if not tr_ok:
-        ctx.violation('translator failed on the IdTraits specialisations', dict(kind='translator', output=tr_out[-2000:]),
-                      found_input=False)
-    vlib.proof_violations(ctx, proof, found)
-    ctx.coverage.update(
-        evaluations=len(cases) + len(second), distinct_nontrivial=len(nontrivial),
-        rule='cases: every value of every 16-bit and 8-bit field of the eleven ID types (format and parse of an '
-             'independently formatted mixed-case string), sampled 32-bit values at power-of-two boundaries, values too '
-             'wide for their field, all single edits and sampled double edits of valid IDs, foreign IDs, the empty '
-             'string; non-trivial = distinct cases on which libadm returns a value rather than an exception',
-        samples=[cases[len(corpus)], cases[len(cases) // 2], cases[-2]] if len(cases) > len(corpus) + 2 else cases[:3],
-        input_distribution=hist, programs=len(cases), disagreements_checked=len(disagreements),
-        oracle_failures=len(oracle_fail), corpus_cases=len(corpus),
-        translator=tr_stats.get('IdTraitsGen.v', {}), exhaustive=False,
-        explanation='theorems are universally quantified; the explored part validates the model against libadm')
-    ctx.assumptions += ['C++ unsigned is 32 bits: field values above 2^32-1 are not representable and not generated',
-                        'the reference ID grammar in tools/props/c10.py transcribes the eleven BS.2076 ID formats']
-    return ctx.finish(proof)
-
-
-def load_corpus():
-    d = os.path.join(vlib.ROOT, 'corpus', 'C10')
-    out = []
-    if os.path.isdir(d):
-        for fn in sorted(os.listdir(d)):
-            for line in open(os.path.join(d, fn)):
-                line = line.strip()
-                if line and not line.startswith('#'):
-                    out.append(line)
-    return out
+    import codeccheck
+    return codeccheck.run(ctx, Spec)
 
 
 def replay(path):
-    r = json.load(open(path))
-    cases = r.get('cases', [])
-    if not cases:
-        print('replay names a theorem or correspondence, not an input: %s' % r.get('kind'))
-        return 1
-    with vlib.Lock():
-        admdrv = vlib.build_admdrv('plain')
-    impl = vlib.run_sharded(admdrv, 'codec', cases, shards=1)
-    bad = 0
-    for c, i in zip(cases, impl):
-        e = expected_line(c)
-        print('%s -> libadm %r, required %r' % (describe(c), i, e))
-        bad += (not agrees(c, i, e))
-    if bad:
-        print('VIOLATION property=C10 replay=%s' % path)
-    return 1 if bad else 0
+    import codeccheck
+    return codeccheck.replay(path, Spec, 'C10')
